@@ -66,9 +66,9 @@ theorem evalIdx_zero {kern : Kernel K} (hs : KSmul kern) (ds : List (Dim K)) (id
 /-- The three table methods whose kernels are Lagrange polynomials of the values. -/
 def Lin3 (m : Method) : Prop := m = .slinear ∨ m = .lagrange2 ∨ m = .lagrange3
 
-theorem lin3_facts (m : Method) (h : Lin3 m) (eps : K) :
-    KAdd (m.kernel eps) ∧ KSmul (m.kernel eps) ∧ KLocal m.minPts (m.kernel eps) ∧
-    ∃ kdx, codeDx m = some kdx ∧ KDual m.minPts (m.kernel eps) kdx (m.kernel (Dual.const eps)) := by
+theorem lin3_facts (m : Method) (h : Lin3 m) (fix : Bool) (eps : K) :
+    KAdd (m.kernel fix eps) ∧ KSmul (m.kernel fix eps) ∧ KLocal m.minPts (m.kernel fix eps) ∧
+    ∃ kdx, codeDx m = some kdx ∧ KDual m.minPts (m.kernel fix eps) kdx (m.kernel fix (Dual.const eps)) := by
   rcases h with rfl | rfl | rfl
   · exact ⟨slinear_add, slinear_smul, slinear_local, slinearDx, rfl, slinear_dual⟩
   · exact ⟨lagrange2_add, lagrange2_smul, lagrange2_local, lagrange2Dx, rfl, lagrange2_dual⟩
